@@ -735,11 +735,11 @@ class Engine:
         m = re.match(r'^(-?[0-9.eE+]+)(f32|f64)$', text)
         if m:
             return OpaqueV('float', float(m.group(1)))
-        return self.eval_named_const(text)
+        return self.eval_named_const(text, frame.fn.crate if frame is not None else None)
 
-    def eval_named_const(self, text):
-        if text in self.const_cache:
-            return self.const_cache[text]
+    def eval_named_const(self, text, crate=None):
+        if (text, crate) in self.const_cache:
+            return self.const_cache[(text, crate)]
         ext = EXTERNAL_CONSTS.get(text)
         if ext is None:
             c = parse_callee(text)
@@ -749,6 +749,15 @@ class Engine:
             return v
         c = parse_callee(text)
         cands = self.lookup_functions(c, 0, const=True)
+        if len(cands) > 1 and crate:
+            same = [f for f in cands if f.crate == crate]
+            if same:
+                cands = same
+        if len(cands) > 1:
+            # identical definitions (re-exports / duplicates of the same literal) are interchangeable
+            vals = set(f.const_value for f in cands)
+            if len(vals) == 1 and None not in vals:
+                cands = cands[:1]
         if len(cands) == 1:
             f = cands[0]
             if f.const_value is not None:
@@ -756,7 +765,7 @@ class Engine:
                 v = self.eval_const(Frame(f), cv[6:] if cv.startswith('const ') else cv)
             else:
                 v = self.run_function(f, [])
-            self.const_cache[text] = v
+            self.const_cache[(text, crate)] = v
             return v
         raise Inconclusive('unknown constant %r (%d candidates)' % (text, len(cands)))
 
@@ -1004,6 +1013,8 @@ class Engine:
             v = a
             if isinstance(v, RefV):
                 v = self.get_path(v.cell.value, v.path)
+            if isinstance(v, LazyV):
+                v = self.materialize(v.ty, v.name)
             if isinstance(v, VecV):
                 return IntV(len(v.items), 'usize')
             if isinstance(v, StrV):
